@@ -1406,4 +1406,53 @@ theorem enumCols_labels : ∀ (ps : List (Pipe × Cols)) (coor : List Nat) (i : 
 end
 
 
+/-! ## what the members of a union / of a ColumnTransformer record -/
+
+section
+variable {α : Type} (S : Sem α)
+
+theorem union_members_input (ps : List Pipe) (coor : List Nat) (i : Nat) (x : α) :
+    ∀ r ∈ stepRecords coor (runAllI S ps coor i x).2, r.inp = x := by
+  induction ps generalizing i with
+  | nil => simp [runAllI, stepRecords]
+  | cons p ps ih =>
+    intro r hr
+    simp only [runAllI, stepRecords, List.filter_append, List.mem_append] at hr
+    have hlen : (childCoordUnion coor i).length = coor.length + 1 := by simp [childCoordUnion]
+    rcases hr with (hr | hr) | hr
+    · have := (List.mem_filter.1 hr).1
+      cases p <;> simp [unionPassRec] at this
+      subst this; rfl
+    · rcases runI_shape S p (childCoordUnion coor i) x with ⟨h1, _⟩ | ⟨rest, h1, h2⟩
+      · rw [h1] at hr; simp at hr
+      · rw [h1] at hr
+        simp only [List.filter_cons, hlen, decide_true, if_true, List.mem_cons, List.mem_filter,
+          decide_eq_true_eq] at hr
+        rcases hr with rfl | ⟨hm, hl⟩
+        · rfl
+        · have := h2 r hm; omega
+    · exact ih (i + 1) r (by simpa [stepRecords] using hr)
+
+theorem columns_members_input (ps : List (Pipe × Cols)) (coor : List Nat) (i : Nat) (x : α) :
+    ∀ r ∈ stepRecords coor (runColsI S ps coor i x).2, ∃ pc ∈ ps, r.inp = S.select pc.2 x := by
+  induction ps generalizing i with
+  | nil => simp [runColsI, stepRecords]
+  | cons pc ps ih =>
+    obtain ⟨p, c⟩ := pc
+    intro r hr
+    simp only [runColsI, stepRecords, List.filter_append, List.mem_append] at hr
+    have hlen : (childCoordColumns coor i).length = coor.length + 1 := by simp [childCoordColumns]
+    rcases hr with hr | hr
+    · rcases runI_shape S p (childCoordColumns coor i) (S.select c x) with ⟨h1, _⟩ | ⟨rest, h1, h2⟩
+      · rw [h1] at hr; simp at hr
+      · rw [h1] at hr
+        simp only [List.filter_cons, hlen, decide_true, if_true, List.mem_cons, List.mem_filter,
+          decide_eq_true_eq] at hr
+        rcases hr with rfl | ⟨hm, hl⟩
+        · exact ⟨(p, c), by simp, rfl⟩
+        · have := h2 r hm; omega
+    · obtain ⟨pc, hpc, h⟩ := ih (i + 1) r (by simpa [stepRecords] using hr)
+      exact ⟨pc, by simp [hpc], h⟩
+end
+
 end MlVerif.Pipeline
